@@ -37,6 +37,9 @@ CLAIM += (' The nine floating-point handlers are validated at word level on a ve
 EXPLANATION += ' A64-CFR-BITS.'
 CLAIM += (' CFROUND is decided bit by bit for all 64 rotation counts, v1 and v2: source bit imm mod 64 reaches FPCR<23>, the next one FPCR<22> (Table 4.3.1 in the RMode encoding), no other FPCR bit and no VM register changes, the v2 branch tests bits 2-5 of the rotated value and skips exactly the rest of the handler (A64-CFR-BITS).')
 
+EXPLANATION += ' LW-POS-EXEC, A64-RT-CALLDEST.'
+CLAIM += (' The calls in the copied part of the template that leave it target exactly code + CodeSize, where generateSuperscalarHash writes the item routine (A64-RT-CALLDEST); mark values by execution (LW-POS-EXEC).')
+
 
 def run(ctx, R):
     FI = astq.Facts(ctx, 'K0')
